@@ -1,0 +1,90 @@
+//go:build verif
+
+// Contracts for the deductive verifier in /verif (apdvc). This file contains
+// only comments: it adds no code to the package and is compiled only with
+// -tags verif. Every line starting with "//@" is a contract clause; see
+// /verif/DESIGN.md section 3 for the language.
+
+package apd
+
+// ---------------------------------------------------------------- vocabulary
+
+//@ define wfdec(x: *Decimal): bool = 0 <= x.Form && x.Form <= 3 && val(x.Coeff) >= 0 && -100000 <= x.Exponent && x.Exponent <= 100000 && -100000 <= x.Exponent + nd10(val(x.Coeff)) - 1 && x.Exponent + nd10(val(x.Coeff)) - 1 <= 100000
+//@ define inv(x: *Decimal): bool = 0 <= x.Form && x.Form <= 3 && val(x.Coeff) >= 0
+//@ define wfctx(c: *Context): bool = 1 <= c.Precision && c.Precision <= c.MaxExponent && c.MaxExponent <= 100000 && -100000 <= c.MinExponent && c.MinExponent <= 0
+//@ define isnan(x: *Decimal): bool = x.Form == NaN || x.Form == NaNSignaling
+//@ define iszero(x: *Decimal): bool = x.Form == Finite && val(x.Coeff) == 0
+//@ define eqdec(d: *Decimal, x: *Decimal): bool = d.Form == old(x.Form) && d.Negative == old(x.Negative) && d.Exponent == old(x.Exponent) && val(d.Coeff) == old(val(x.Coeff))
+
+// ---------------------------------------------------------------- globals
+
+//@ global bigOne: val(bigOne) == 1
+//@ global bigTwo: val(bigTwo) == 2
+//@ global bigFive: val(bigFive) == 5
+//@ global bigTen: val(bigTen) == 10
+//@ global decimalZero: decimalZero.Form == Finite && !decimalZero.Negative && decimalZero.Exponent == 0 && val(decimalZero.Coeff) == 0
+//@ global decimalOne: decimalOne.Form == Finite && !decimalOne.Negative && decimalOne.Exponent == 0 && val(decimalOne.Coeff) == 1
+//@ global decimalHalf: decimalHalf.Form == Finite && !decimalHalf.Negative && decimalHalf.Exponent == -1 && val(decimalHalf.Coeff) == 5
+//@ global decimalNaN: decimalNaN.Form == NaN && !decimalNaN.Negative && decimalNaN.Exponent == 0 && val(decimalNaN.Coeff) == 0
+//@ global decimalInfinity: decimalInfinity.Form == Infinite && !decimalInfinity.Negative && decimalInfinity.Exponent == 0 && val(decimalInfinity.Coeff) == 0
+//@ global pow10LookupTable[i]: 0 <= i && i <= 128 ==> val(pow10LookupTable[i]) == pow10(i)
+
+// ---------------------------------------------------------------- BigInt as seen from layer 2
+
+//@ func (*BigInt).Set
+//@   trusted layer-1 contract (proved in layer 1)
+//@   assigns z
+//@   ensures val(z) == old(val(x)) && result == z
+
+//@ func (*BigInt).SetInt64
+//@   trusted layer-1 contract
+//@   assigns z
+//@   ensures val(z) == x && result == z
+
+//@ func (*BigInt).Abs
+//@   trusted layer-1 contract
+//@   assigns z
+//@   ensures val(z) == abs(old(val(x))) && result == z
+
+//@ func (*BigInt).Sign
+//@   trusted layer-1 contract
+//@   pure
+//@   ensures result == sgn(val(z))
+
+// ---------------------------------------------------------------- decimal.go
+
+//@ func (*Decimal).Sign
+//@   props C01 C08 C15
+//@   pure
+//@   ensures d.Form == Finite && val(d.Coeff) == 0 ==> result == 0
+//@   ensures !(d.Form == Finite && val(d.Coeff) == 0) ==> result == ite(d.Negative, -1, 1)
+
+//@ func (*Decimal).IsZero
+//@   props C01 C08
+//@   pure
+//@   ensures result <==> (d.Form == Finite && val(d.Coeff) == 0)
+
+//@ func (*Decimal).setSlow
+//@   props C01 C05 C06
+//@   requires writable(d)
+//@   assigns d
+//@   ensures eqdec(d, x) && result == d
+
+//@ func (*Decimal).Set
+//@   props C01 C05 C06
+//@   requires d != x ==> writable(d)
+//@   assigns d
+//@   ensures eqdec(d, x) && result == d
+
+//@ func (*Decimal).Abs
+//@   props C01 C05 C06
+//@   requires writable(d)
+//@   assigns d
+//@   ensures d.Form == old(x.Form) && !d.Negative && d.Exponent == old(x.Exponent) && val(d.Coeff) == old(val(x.Coeff)) && result == d
+
+//@ func (*Decimal).Neg
+//@   props C01 C05 C06
+//@   requires writable(d)
+//@   assigns d
+//@   ensures d.Form == old(x.Form) && d.Exponent == old(x.Exponent) && val(d.Coeff) == old(val(x.Coeff)) && result == d
+//@   ensures d.Negative == ite(old(x.Form) == Finite && old(val(x.Coeff)) == 0, false, !old(x.Negative))
